@@ -25,6 +25,9 @@ type VSlice struct {
 	Obj           int
 	Off, Len, Cap *Term // BV64
 	Nil           *Term // Bool
+	// Whole, when set, is a canonical Bytes value such that this slice covered exactly
+	// (barr Whole)[0:blen Whole] when it was created; valid while the object is unchanged.
+	Whole *Term
 }
 
 // VBig is a math.Int or *big.Int: Nil flag and a 264-bit two's complement value.
